@@ -18,7 +18,7 @@ from copsim.seams import Poison, sterile
 PROPERTY = 'C16'
 LEVEL = 'exploration'
 TIERS = {
-    'quick': {'runs': 300, 'wall': 75, 'batch': 2},
+    'quick': {'runs': 500, 'wall': 150, 'batch': 2},
     'thorough': {'runs': 20000, 'wall': 840, 'batch': 3},
 }
 RULE = ('Each run = one simulator-generated table (2-7 columns, 60-300 rows, a chosen ordering '
